@@ -47,12 +47,13 @@ prop("C11", "exploration",
 prop("C13", "exploration",
      "generated payloads of 1-8 parts over 1-5 in-memory files (slices at start/middle/end/whole, names with unicode, "
      "spaces, ':' and both separators, rename and predecessor strings, nanosecond times), encoded with EncodeHeader+GetEncoder "
-     "through read buffers of 1..4096 bytes and file readers returning 1..n bytes, optional gzip level 0-9, decoded with "
+     "through read buffers of 1..4096 bytes and file readers returning 1..n bytes, optionally after an earlier life of the payload (a first attempt, then a part "
+     "removed or a split, as the send loop does), optional gzip level 0-9, decoded with "
      "payload.NewDecoder through step readers; plus malformed streams (cut in header, cut in body, declared length short / "
      "long by 1-12, garbled header byte); non-trivial = >= 2 parts from >= 2 files with a mid-file slice and a buffer smaller "
      "than a part, or any malformed stream",
      [dict(pkg="payloadx", test="TestC13RoundTrip", world="W0", quick=8000, thorough=400000,
-           required_classes=["mid-file-slice"]),
+           required_classes=["mid-file-slice", "part-removed-after-first-attempt", "split-after-first-attempt"]),
       dict(pkg="payloadx", test="TestC13Malformed", world="W0", quick=8000, thorough=400000,
            required_classes=["cut-in-header", "declared-short", "declared-long", "cut-in-body"])],
      ["file contents avoid JSON whitespace so that an over-long declared header is always detectable",
